@@ -19,8 +19,12 @@ import (
 	"net/http"
 	"net/http/httptest"
 	"os"
+	"runtime/pprof"
 	"sort"
+	"strconv"
 	"strings"
+	"sync"
+	"sync/atomic"
 	"testing"
 	"testing/synctest"
 	"time"
@@ -30,6 +34,8 @@ import (
 	"github.com/nuetzliches/hookaido/internal/verifkit/runner"
 )
 
+var scratch = runner.Scratch()
+
 var epoch = time.Date(2000, 1, 1, 0, 0, 0, 0, time.UTC) // start of every synctest bubble
 
 const day = 24 * time.Hour
@@ -37,11 +43,14 @@ const day = 24 * time.Hour
 // timeline of the secret versions: T0 < T1 < T2 < T3 ; S1 = [T0,T2)  S2 = [T1,T3)
 func tl(i int) time.Time { return epoch.Add(time.Duration(i+1) * day) }
 
-const dslHead = `
-ingress   { listen "127.0.0.1:18080" }
-pull_api  { listen "127.0.0.1:19443"  auth token "raw:g1" }
-admin_api { listen "127.0.0.1:12019" }
-`
+// dslHead: listener placeholders; every worker slot has its own addresses (vnet is process-wide).
+func dslHead(slot int) string {
+	return fmt.Sprintf(`
+ingress   { listen "127.0.0.1:%d" }
+pull_api  { listen "127.0.0.1:%d"  auth token "raw:g1" }
+admin_api { listen "127.0.0.1:%d" }
+`, 18000+slot, 19000+slot, 12000+slot)
+}
 
 // ---------------------------------------------------------------- HMAC configurations
 
@@ -70,9 +79,9 @@ func hmacConfigs(thorough bool) []*hmacCfg {
 	return out
 }
 
-func (c *hmacCfg) dsl() string {
+func (c *hmacCfg) dsl(slot int) string {
 	var b strings.Builder
-	b.WriteString(dslHead)
+	b.WriteString(dslHead(slot))
 	if len(c.Refs) > 0 {
 		b.WriteString("secrets {\n")
 		for _, v := range c.Refs {
@@ -177,12 +186,18 @@ func offsets(tol time.Duration, thorough bool) []offset {
 // ---------------------------------------------------------------- executing one case
 
 type snap struct {
+	at    time.Time
 	stats string
-	items map[string]string // id -> canonical row
-	pay   map[string][]byte
-	route map[string]string
+	ids   []string // sorted
+	rows  []string // canonical row per id (same order)
+	pay   [][]byte
+	route []string
+	print string // stats + rows: the whole observable queue content
 }
 
+// takeSnap reads the observable queue content: Stats and the full listing (what GET /messages
+// of the admin API is built on). Clock-derived ages (OldestQueuedAge, ReadyLag) are not queue
+// contents and are left out.
 func takeSnap(st queue.Store) (*snap, error) {
 	s, err := st.Stats()
 	if err != nil {
@@ -191,59 +206,67 @@ func takeSnap(st queue.Store) (*snap, error) {
 	var keys []string
 	for k, v := range s.ByState {
 		if v != 0 {
-			keys = append(keys, fmt.Sprintf("%s=%d", k, v))
+			keys = append(keys, string(k)+"="+itoa(v))
 		}
 	}
 	sort.Strings(keys)
-	l, err := st.ListMessages(queue.MessageListRequest{Limit: 1000, IncludePayload: true, IncludeHeaders: true, IncludeTrace: true})
+	l, err := st.ListMessages(queue.MessageListRequest{Limit: 1000, IncludePayload: true})
 	if err != nil {
 		return nil, err
 	}
 	if len(l.Items) >= 1000 {
 		return nil, errors.New("listing limit reached; harness keeps queues small")
 	}
-	out := &snap{items: map[string]string{}, pay: map[string][]byte{}, route: map[string]string{}}
-	// clock-derived ages (OldestQueuedAge, ReadyLag) are not queue contents and are left out
-	out.stats = fmt.Sprintf("total=%d %s oldest=%d nextrun=%d", s.Total, strings.Join(keys, ","), s.OldestQueuedReceivedAt.UnixNano(), s.EarliestQueuedNextRun.UnixNano())
-	for _, it := range l.Items {
-		hk := make([]string, 0, len(it.Headers))
-		for k, v := range it.Headers {
-			hk = append(hk, k+"="+v)
-		}
-		sort.Strings(hk)
-		out.items[it.ID] = fmt.Sprintf("%s|%s|%s|%s|%d|%x|%d|%d|%s", it.ID, it.Route, it.Target, it.State, it.Attempt, it.Payload, it.ReceivedAt.UnixNano(), it.NextRunAt.UnixNano(), strings.Join(hk, "&"))
-		out.pay[it.ID] = it.Payload
-		out.route[it.ID] = it.Route
+	out := &snap{at: time.Now()}
+	out.stats = "total=" + itoa(s.Total) + " " + strings.Join(keys, ",") + " oldest=" + strconv.FormatInt(s.OldestQueuedReceivedAt.UnixNano(), 10) +
+		" nextrun=" + strconv.FormatInt(s.EarliestQueuedNextRun.UnixNano(), 10)
+	type rowT struct {
+		id, row, route string
+		pay            []byte
 	}
+	rows := make([]rowT, 0, len(l.Items))
+	for i := range l.Items {
+		it := &l.Items[i]
+		row := it.ID + "|" + it.Route + "|" + it.Target + "|" + string(it.State) + "|" + itoa(it.Attempt) + "|" + string(it.Payload) + "|" +
+			strconv.FormatInt(it.ReceivedAt.UnixNano(), 10) + "|" + strconv.FormatInt(it.NextRunAt.UnixNano(), 10)
+		rows = append(rows, rowT{it.ID, row, it.Route, it.Payload})
+	}
+	sort.Slice(rows, func(i, j int) bool { return rows[i].id < rows[j].id })
+	var b strings.Builder
+	b.WriteString(out.stats)
+	for _, x := range rows {
+		out.ids = append(out.ids, x.id)
+		out.rows = append(out.rows, x.row)
+		out.pay = append(out.pay, x.pay)
+		out.route = append(out.route, x.route)
+		b.WriteByte('\n')
+		b.WriteString(x.row)
+	}
+	out.print = b.String()
 	return out, nil
 }
 
-func (a *snap) equal(b *snap) bool {
-	if a.stats != b.stats || len(a.items) != len(b.items) {
-		return false
-	}
-	for k, v := range a.items {
-		if b.items[k] != v {
-			return false
-		}
-	}
-	return true
-}
+func (a *snap) equal(b *snap) bool { return a.print == b.print }
 
-// added returns the ids present in b only, provided everything of a is unchanged in b.
-func (a *snap) added(b *snap) ([]string, bool) {
-	var ids []string
-	for k, v := range a.items {
-		if b.items[k] != v {
-			return nil, false
+// added returns the indexes (in b) of rows present in b only, provided every row of a is unchanged in b.
+func (a *snap) added(b *snap) ([]int, bool) {
+	old := map[string]string{}
+	for i, id := range a.ids {
+		old[id] = a.rows[i]
+	}
+	var idx []int
+	seen := 0
+	for i, id := range b.ids {
+		if row, ok := old[id]; ok {
+			if row != b.rows[i] {
+				return nil, false
+			}
+			seen++
+		} else {
+			idx = append(idx, i)
 		}
 	}
-	for k := range b.items {
-		if _, ok := a.items[k]; !ok {
-			ids = append(ids, k)
-		}
-	}
-	return ids, true
+	return idx, seen == len(a.ids)
 }
 
 func rawRequest(c *reqCase) []byte {
@@ -269,7 +292,44 @@ type env struct {
 	route   string
 	where   string // clock / point / signer label, part of violation keys
 	fwd     *fwdRT
+	last    *snap // snapshot taken after the previous request of this application instance
+	tl      *tally
+	sample  bool // this env may contribute evidence samples
 }
+
+// tally: per-bubble bookkeeping, merged into the runner when the bubble ends (workers run in parallel).
+type tally struct {
+	n        map[string]int64
+	distinct map[string]struct{}
+	classes  map[string]int
+}
+
+func newTally() *tally {
+	return &tally{n: map[string]int64{}, distinct: map[string]struct{}{}, classes: map[string]int{}}
+}
+
+var (
+	flushMu     sync.Mutex
+	classCount  = map[string]int{}
+	sampleCount = map[string]int{}
+	nonceCtr    atomic.Int64
+)
+
+func (t *tally) flush(r *runner.Run) {
+	flushMu.Lock()
+	defer flushMu.Unlock()
+	for k, v := range t.n {
+		r.Add(k, v)
+	}
+	for k := range t.distinct {
+		r.Distinct(k)
+	}
+	for k, v := range t.classes {
+		classCount[k] += v
+	}
+}
+
+func freshNonce() string { return fmt.Sprintf("n-%09d", nonceCtr.Add(1)) }
 
 type verdict struct {
 	Kind   string // "" = conforms
@@ -286,11 +346,17 @@ func (e *env) evalOnce(c *reqCase, refAccept bool, allowed []int) verdict {
 		return verdict{} // not an HTTP request: net/http answers 400 before any handler runs
 	}
 	req.RemoteAddr = "198.51.100.7:40000"
-	before, err := takeSnap(e.a.Store)
-	if err != nil {
-		e.r.Infra("snapshot: %v", err)
-		return verdict{Parsed: true}
+	// "before": the snapshot taken after the previous request is reused when nothing can have
+	// happened in between (same application instance, single goroutine, virtual clock unmoved).
+	before := e.last
+	if before == nil || !before.at.Equal(time.Now()) {
+		before, err = takeSnap(e.a.Store)
+		if err != nil {
+			e.r.Infra("snapshot: %v", err)
+			return verdict{Parsed: true}
+		}
 	}
+	e.last = nil
 	rec := httptest.NewRecorder()
 	e.a.Ingress.ServeHTTP(rec, req)
 	status := rec.Code
@@ -299,6 +365,7 @@ func (e *env) evalOnce(c *reqCase, refAccept bool, allowed []int) verdict {
 		e.r.Infra("snapshot: %v", err)
 		return verdict{Parsed: true}
 	}
+	e.last = after
 	v := verdict{Status: status, Parsed: true}
 	if !refAccept {
 		switch {
@@ -333,51 +400,55 @@ func (e *env) evalOnce(c *reqCase, refAccept bool, allowed []int) verdict {
 	return v
 }
 
-var nonceCtr int
-
-var sampleCount = map[string]int{}
-
-func freshNonce() string { nonceCtr++; return fmt.Sprintf("n-%09d", nonceCtr) }
-
 // run evaluates one case, does the bookkeeping and reports violations.
 func (e *env) run(c *reqCase, refAccept bool, allowed []int, nontrivial bool, renonce func(*reqCase) *reqCase) {
-	r := e.r
+	r, n := e.r, e.tl.n
 	v := e.evalOnce(c, refAccept, allowed)
 	if !v.Parsed {
-		r.Add("not_http_parseable", 1)
+		n["not_http_parseable"]++
+		e.tl.classes["unparseable "+e.family+":"+c.Class]++
 		return
 	}
-	r.Add("evaluations", 1)
-	r.Add(e.family+"_cases", 1)
+	n["evaluations"]++
+	n[e.family+"_cases"]++
 	if refAccept {
-		r.Add("ref_accepts", 1)
+		n["ref_accepts"]++
 	} else {
-		r.Add("ref_rejects", 1)
+		n["ref_rejects"]++
 	}
 	if v.Status == http.StatusAccepted {
-		r.Add("impl_accepts", 1)
+		n["impl_accepts"]++
 	} else {
-		r.Add("impl_rejects", 1)
+		n["impl_rejects"]++
 		if refAccept {
-			r.Add("ref_accepts_impl_rejects", 1) // allowed: the property is one-directional
+			n["ref_accepts_impl_rejects"]++ // allowed: the property is one-directional
+			e.tl.classes["incomplete "+e.family+":"+c.Class+" "+c.Detail]++
 		}
 	}
 	if c.Probe {
-		r.Add("completeness_probes", 1)
+		n["completeness_probes"]++
 	}
 	verd := "reject"
 	if refAccept {
 		verd = "accept"
 	}
 	if nontrivial {
-		r.Distinct(fmt.Sprintf("%s:%s:%s:%s:%d", e.family, c.Class, e.whereClass(), verd, v.Status))
+		e.tl.distinct[e.family+":"+c.Class+":"+e.where+":"+verd+":"+itoa(v.Status)] = struct{}{}
 	} else {
-		r.Add("trivial_base_already_invalid", 1)
+		n["trivial_base_already_invalid"]++
 	}
 	if v.Kind == "" {
-		if nontrivial && sampleCount[e.family] < 2 && (c.Class == "sig:bitflip" || c.Class == "credential-bitflip" || c.Class == "status" || c.Class == "no-credentials") {
-			sampleCount[e.family]++
-			r.Sample(map[string]any{"family": e.family, "config": e.cfgName, "where": e.where, "class": c.Class, "detail": c.Detail, "ref_accepts": refAccept, "status": v.Status})
+		if e.sample && nontrivial && (c.Class == "sig:bitflip" || c.Class == "credential-bitflip" || c.Class == "status" || c.Class == "no-credentials" || c.Class == "base") {
+			flushMu.Lock()
+			take := sampleCount[e.family+c.Class] < 1 && sampleCount[e.family] < 2
+			if take {
+				sampleCount[e.family+c.Class]++
+				sampleCount[e.family]++
+			}
+			flushMu.Unlock()
+			if take {
+				r.Sample(map[string]any{"family": e.family, "config": e.cfgName, "where": e.where, "class": c.Class, "detail": c.Detail, "ref_accepts": refAccept, "status": v.Status})
+			}
 		}
 		return
 	}
@@ -391,9 +462,6 @@ func (e *env) run(c *reqCase, refAccept bool, allowed []int, nontrivial bool, re
 		return e.evalOnce(c2, refAccept, allowed).Kind == v.Kind
 	})
 }
-
-// whereClass: the part of `where` that distinguishes case classes (drops nothing today).
-func (e *env) whereClass() string { return e.where }
 
 type replayT struct {
 	Family     string   `json:"family"`
@@ -432,13 +500,13 @@ func (e *env) replayObj(c *reqCase, refAccept bool, allowed []int, v verdict) re
 
 // bubble boots the application inside a synctest bubble, moves the virtual clock to `at`
 // (zero: leave it at the epoch) and runs f; the application is shut down inside the bubble.
-func bubble(t *testing.T, r *runner.Run, dsl string, at time.Time, f func(a *app.VerifApp)) {
+func bubble(t *testing.T, r *runner.Run, slot int, dsl string, at time.Time, f func(a *app.VerifApp)) {
 	synctest.Test(t, func(t *testing.T) {
 		if !time.Now().Equal(epoch) {
 			r.Infra("bubble clock starts at %v, expected %v", time.Now(), epoch)
 			return
 		}
-		a, err := app.VerifBoot(app.VerifBootOptions{Dir: runner.Scratch() + "/app", ConfigText: dsl})
+		a, err := app.VerifBoot(app.VerifBootOptions{Dir: fmt.Sprintf("%s/app%d", scratch, slot), ConfigText: dsl})
 		if err != nil {
 			r.Infra("boot failed: %v\n%s", err, dsl)
 			return
@@ -676,7 +744,7 @@ func runConfigGuards(t *testing.T, r *runner.Run) {
 	for _, g := range guards {
 		dsl := dslHead + "/c {\n  queue { backend memory }\n  " + strings.ReplaceAll(g.route, "\n", "\n  ") + "\n  pull { path /pull/c }\n}\n"
 		synctest.Test(t, func(t *testing.T) {
-			a, err := app.VerifBoot(app.VerifBootOptions{Dir: runner.Scratch() + "/app", ConfigText: dsl})
+			a, err := app.VerifBoot(app.VerifBootOptions{Dir: scratch + "/app0", ConfigText: dsl})
 			r.Add("evaluations", 1)
 			r.Add("config_cases", 1)
 			if err != nil {
@@ -739,6 +807,11 @@ func TestCheck(t *testing.T) {
 		r.Set("rule", "replay of one recorded case")
 		r.Finish()
 	}
+	if pf := os.Getenv("C08_CPUPROF"); pf != "" {
+		f, _ := os.Create(pf)
+		pprof.StartCPUProfile(f)
+		defer pprof.StopCPUProfile()
+	}
 	runConfigGuards(t, r)
 	runBasic(t, r)
 	runForward(t, r)
@@ -753,6 +826,15 @@ func TestCheck(t *testing.T) {
 	r.Assume("requests are handed to the ingress http.Handler directly (http.ReadRequest + httptest recorder); TLS, net/http's own 400 answers and header-size limits of http.Server are not part of the check")
 	r.Assume("memory queue backend; replay protection (C09) is kept out of the way by a fresh nonce per request")
 	r.Assume("forward auth through an injected in-memory RoundTripper; redirects by the auth service and stalls after a 2xx header are not enumerated (the statement is silent about them)")
+	pprof.StopCPUProfile()
+	if os.Getenv("C08_DEBUG") != "" {
+		var ks []string
+		for k, n := range classCount {
+			ks = append(ks, fmt.Sprintf("%s x%d", k, n))
+		}
+		sort.Strings(ks)
+		fmt.Println(strings.Join(ks, "\n"))
+	}
 	r.Assume("reference is the most permissive reading where the statement leaves a choice (hex letter case, OWS, duplicate headers, percent-encoding, sign/leading zeros of the timestamp, tolerance boundary inclusive)")
 	r.Finish()
 }
